@@ -7,10 +7,11 @@ from collections import Counter
 from vlib import *
 
 TRACE_CFG = "CoinomicsTrace.cfg"
+NATIVE = "aISLM"
 
 MANIFEST_ENTRY = dict(engine="Coinomics", design="§4 C13",
    technique="TLA+ specs Coinomics.tla + CoinomicsBlock.tla + Dec18.tla: TLC exhaustive model checking of the per-block mint/cap rules and of whole blocks (validator-set changes, parameter proposals and the order of the end blockers); TLC-simulated sequences and seeded random 128-bit scenarios executed on the real x/coinomics EndBlocker at scripted block times, TLC-simulated and seeded random whole blocks executed on the real application through ABCI; every recorded block validated by TLC (exact BigNum arithmetic) against the property layer (trace validation)",
-   text="The statement is written as TLA+ clauses over (bank supply, fee collector, params, bonded, max supply) before/after a block: the minted integer must be the nearest integer to some value an 18-decimal evaluation of bonded x coeff% x elapsed/year can reach (band checked by exact cross-multiplication, no association order imposed), elapsed is the difference of consecutive block timestamps, the year length follows the block's calendar year, supply' = supply + min(mint, max - supply), the crossing block mints the remainder and switches minting off, nothing is minted while disabled / on the first block after an activation / at or above the cap, and everything minted reaches the fee collector. TLC proves these clauses for the intended design on all block/parameter-change sequences up to the configured length over small grids (incl. rounding ties, year boundaries, every position of the cap relative to the mint); TLC-generated sequences and random large-value sequences are run on the real EndBlocker and each step is judged by TLC against the clauses. SDK LegacyDec semantics (Dec18.tla) are additionally compared with the real library on random vectors. Whole blocks: the statement does not say at which instant of a block bonded and the parameters are read; P fixes it as app.go wires it - the mint of block h is computed from the bonded tokens, RewardCoefficient and EnableCoinomics that block h leaves behind (transactions and every other module's end blocker applied: a validator that leaves the bonded set in block h earns nothing for it, one that joins does, a parameter proposal applies to the block that executes it). CoinomicsBlock.tla models the block (BeginBlock jailing by double-sign evidence and downtime, delegate / undelegate / create-validator / unjail / proposal transactions, the gov, staking and coinomics end blockers); TLC checks the clause on all block sequences within the bounds, and witness configurations with coinomics wired before staking or before gov must violate it. Its block scripts and seeded random block scenarios run on the real application (InitChain, BeginBlock with evidence and absences, signed transactions, EndBlock of all modules, Commit) and every block is judged by TLC from the states read before and after the application's EndBlock and the proposals the gov store shows as executed.",
+   text="The statement is written as TLA+ clauses over (bank supply, fee collector, params, bonded, max supply) before/after a block: the minted integer must be the nearest integer to some value an 18-decimal evaluation of bonded x coeff% x elapsed/year can reach (band checked by exact cross-multiplication, no association order imposed), elapsed is the difference of consecutive block timestamps, the year length follows the block's calendar year, supply' = supply + min(mint, max - supply) where max is the configured amount whatever it is (placed relative to the supply or configured absolutely: zero, a few units, far below the supply) and whatever denomination label MaxSupply is stored with (the statement knows one coin, so the label has no meaning for P), the crossing block mints the remainder and switches minting off, nothing is minted while disabled / on the first block after an activation / at or above the cap, and everything minted reaches the fee collector. TLC proves these clauses for the intended design on all block/parameter-change sequences up to the configured length over small grids (incl. rounding ties, year boundaries, every position of the cap relative to the mint); TLC-generated sequences and random large-value sequences are run on the real EndBlocker and each step is judged by TLC against the clauses. SDK LegacyDec semantics (Dec18.tla) are additionally compared with the real library on random vectors. Whole blocks: the statement does not say at which instant of a block bonded and the parameters are read; P fixes it as app.go wires it - the mint of block h is computed from the bonded tokens, RewardCoefficient and EnableCoinomics that block h leaves behind (transactions and every other module's end blocker applied: a validator that leaves the bonded set in block h earns nothing for it, one that joins does, a parameter proposal applies to the block that executes it). CoinomicsBlock.tla models the block (BeginBlock jailing by double-sign evidence and downtime, delegate / undelegate / create-validator / unjail / proposal transactions, the gov, staking and coinomics end blockers); TLC checks the clause on all block sequences within the bounds, and witness configurations with coinomics wired before staking or before gov must violate it. Its block scripts and seeded random block scenarios run on the real application (InitChain, BeginBlock with evidence and absences, signed transactions, EndBlock of all modules, Commit) and every block is judged by TLC from the states read before and after the application's EndBlock and the proposals the gov store shows as executed.",
    note="EndBlocker scenarios: the EndBlocker is called directly on a deliver-state context (cache-wrapped per scenario) with scripted block times; bonded is set through the bonded-pool balance that TotalBondedTokens reads; other modules' EndBlockers do not run. Block scenarios: a fresh application per scenario driven through ABCI with the harness as consensus (votes and evidence are what the scenario says); the cap is placed relative to the genesis supply through the keeper before block 1; the mint is the supply difference across the application's EndBlock (nothing in the scenarios' transactions mints or burns the native coin; a supply change before EndBlock is reported as divergence). The band is deliberately permissive for large bonded amounts (18-decimal noise scales with bonded), so rounding-mode mutations are visible only on the small-amount scenarios. Exhaustive checking is bounded by specs/Coinomics_*.cfg; TLC, the Json module and the BigNum override are trusted.")
 
 
@@ -77,6 +78,8 @@ def _census(path, cen, samples):
                         cen["chain_due_coeff_changed_by_gov"] += 1
                     if 0 <= room < due:
                         cen["chain_due_to_cross_cap"] += 1
+                        if b["maxDenom"] != NATIVE:
+                            cen["chain_due_to_cross_cap_other_label"] += 1
                     if len(samples) < 8 and int(post["bonded"]) != int(b["bonded"]) and room > due and cen["chain_samples"] < 2:
                         cen["chain_samples"] += 1
                         samples.append({k: o[k] for k in ("ev", "args", "pre", "gov", "post")})
@@ -126,6 +129,16 @@ def _census(path, cen, samples):
                                 cen["blocks_due_to_mint_small_bonded"] += 1
                             if len(samples) < 3 and bonded > 10 ** 20 and room > due:
                                 samples.append({"ev": ev, "args": o["args"], "pre": pre, "post": post})
+                        # how the maximum is configured: an absolute value (zero, far below the supply) rather than
+                        # a distance from the supply; the denomination label MaxSupply is stored with
+                        if due >= 1 and int(pre["max"]) == 0:
+                            cen["blocks_due_to_mint_cap_zero"] += 1
+                        if due >= 1 and 0 < int(pre["max"]) < int(pre["supply"]) // 2:
+                            cen["blocks_due_to_mint_cap_far_below_supply"] += 1
+                        if due >= 1 and room >= 1 and pre["maxDenom"] != NATIVE:
+                            cen["blocks_due_to_mint_other_label"] += 1
+                        if 0 <= room < due and pre["maxDenom"] != NATIVE:
+                            cen["blocks_due_to_cross_cap_other_label"] += 1
                         if 0 <= room < due:
                             cen["blocks_due_to_cross_cap"] += 1
                             if len(samples) < 5 and room > 0:
@@ -284,7 +297,9 @@ def _scenarios(c, wd, quick):
     c.add_violations(list(first.values()))
     floors = dict(blocks_due_to_mint=300, blocks_due_to_mint_small_bonded=50, blocks_due_to_cross_cap=30,
                   blocks_disabled=100, blocks_first_after_activation=300, blocks_first_after_reactivation=50,
-                  blocks_at_cap=20, blocks_above_cap=20, blocks_across_new_year=50, blocks_leap_year=200,
+                  blocks_at_cap=20, blocks_above_cap=20, blocks_due_to_mint_cap_zero=30,
+                  blocks_due_to_mint_cap_far_below_supply=10, blocks_due_to_mint_other_label=100,
+                  blocks_due_to_cross_cap_other_label=10, chain_due_to_cross_cap_other_label=3, blocks_across_new_year=50, blocks_leap_year=200,
                   blocks_common_year=200, blocks_equal_timestamp=30, blocks_100bit_values=200, dec_vectors=1000,
                   chain_blocks=1500, chain_blocks_due_to_mint=400, chain_due_validator_left_in_endblock=25,
                   chain_due_validator_joined_in_endblock=25, chain_due_bonded_moved_by_transactions=50,
@@ -304,6 +319,7 @@ def _scenarios(c, wd, quick):
         "block scenarios: the application is driven through ABCI (InitChain, BeginBlock, DeliverTx, EndBlock, Commit) with the harness as consensus: last-commit votes, absences and double-sign evidence are what the scenario says; the proposer is always validator 1, which the scenarios never take out of the bonded set",
         "block scenarios: P reads 'the mint of block h' as the supply difference across the application's EndBlock, computed from bonded / RewardCoefficient as read after it (coinomics writes neither) and EnableCoinomics as read before it with the parameter changes of the proposals applied that the gov store shows as moved from the voting period to PASSED by this EndBlock",
         "block scenarios generated by TLC run with slash fractions 0 (exchange rate 1 in the scenario machine); half of the seeded random ones slash 5 % / 1 %",
+        "MaxSupply is written through keeper.SetMaxSupply (what InitGenesis calls) with the amount and denomination label of the scenario; params.MintDenom stays aISLM in every scenario (the statement speaks of the native coin only), and P judges the bank supply of params.MintDenom against the amount of MaxSupply whatever its label",
         "bonded is controlled through the balance of the bonded pool (what TotalBondedTokens reads), not through delegations",
         "the amount is judged against a band (18-decimal noise scaled by bonded, plus 1/2 + 1/1000), not against one association order; exact agreement with the as-built formula is reported as conformance only",
         "exhaustive model checking is bounded by the constants in specs/Coinomics_*.cfg (env steps between two blocks in canonical order)",
